@@ -123,3 +123,16 @@ M("C16", "to_native-looks-at-first-field-only", [(NU, "        for fname in arra
 M("C16", "descr-strips-two-chars-for-U", [(NU, "        nd[1] = nd[1][1:]\n", "        nd[1] = nd[1][1:] if nd[1][1] != 'U' else 'S' + nd[1][2:]\n")])
 M("C16", "byteswap-inplace-ignored-for-0d", [(NU, "    outdata = array.byteswap(inplace)\n", "    outdata = array.byteswap(inplace and array.ndim > 0)\n")],
   "0-d arrays are never converted in place")
+
+# ---- C08
+CO = "esutil/coords.py"
+M("C08", "switchover-3.0-arcsin-without-pi", [(CO, "    w = dsq >= 3.99\n", "    w = dsq >= 3.0\n"), (CO, "        dis[w] = np.pi - np.arcsin(np.sqrt(crosssq))", "        dis[w] = np.where(dsq[w] >= 3.99, np.pi - np.arcsin(np.sqrt(crosssq)), np.arcsin(np.sqrt(crosssq)))")],
+  "separations between 120 and 174 degrees come back as 180 - d")
+M("C08", "gcirc-clip-removed", [(CO, "    cosdis.clip(-1.0, 1.0, out=cosdis)\n", "")], "NaN for rounding beyond +-1")
+M("C08", "deg2rad-twice-rad-deg", [(CO, "    x1, y1, z1 = eq2xyz(ra1, dec1, units=units_in)\n", "    x1, y1, z1 = eq2xyz(ra1, dec1, units=units_in if units_out == units_in else 'deg')\n")],
+  "first point converted from degrees although the input unit is radians when the two units differ")
+M("C08", "sphdist-chord-only", [(CO, "    w = dsq >= 3.99\n", "    w = dsq >= 3.9999999\n")],
+  "chord formula kept up to 179.98 degrees: loses precision near antipodes")
+M("C08", "sphdist-zero-fixup-dropped-dec", [(CO, "        (np.atleast_1d(ra1) == np.atleast_1d(ra2))\n        & (np.atleast_1d(dec1) == np.atleast_1d(dec2))\n", "        (np.atleast_1d(ra1) == np.atleast_1d(ra2))\n")],
+  "pairs on the same meridian are forced to zero")
+M("C08", "gcirc-radiff-sign", [(CO, "    radiff = ra2 - ra1\n", "    radiff = ra1 - ra2\n")], "cos is even: equivalent", control=True)
